@@ -155,6 +155,11 @@ VTrajSplit(s, e) ==
   ELSE IF \E i \in 1..Len(Rg) : Rg[i][1] < 0 \/ Rg[i][2] > e.T \/ Rg[i][1] >= Rg[i][2] THEN <<"trajsplit-not-a-frame-range", s>>
   ELSE IF \E i \in 1..(Len(Rg) - 1) : Rg[i][2] > Rg[i + 1][1] THEN <<"trajsplit-overlap-or-order", s>>
   ELSE IF e.equal /\ \E i \in 1..Len(Rg) : Rg[i][2] - Rg[i][1] # Rg[1][2] - Rg[1][1] THEN <<"trajsplit-not-equal-length", s>>
+  (* "the corresponding frames": unless trimmed to equal length the parts follow one another without a gap from the first frame to the   *)
+  (* end of the source (the documented partition np.linspace(0, len - 1, n + 1) stops at the last frame, which it leaves out; a       *)
+  (* partition that includes it is accepted as well).  No frame in between is lost.                                                *)
+  ELSE IF ~e.equal /\ (Rg[1][1] # 0 \/ (\E i \in 1..(Len(Rg) - 1) : Rg[i][2] # Rg[i + 1][1]) \/ Rg[Len(Rg)][2] \notin {e.T - 1, e.T})
+       THEN <<"trajsplit-parts-do-not-tile-the-source", s>>
   ELSE <<"ok", s>>
 
 Verdict(s, e) ==
